@@ -16,6 +16,8 @@ def check(ctx):
     from rules import tz as _tz
     _tz.check_utc_guard(ctx, rep)
     hayson.check_member_loop(ctx, rep)
+    nok = hayson.check_owned_keys(ctx, rep)
+    rep.floor("MapAccess / SeqAccess requests of the Hayson visitor", nok, 2)
     nic = hayson.check_int_casts(ctx, rep)
     n = hayson.check_tables(ctx, rep, with_spec=True)
     rep.floor("tagged Hayson kinds compared with the specification", n, 13)
